@@ -19,6 +19,8 @@ KIND_SYSCALL = {
 }
 SYSCALL_KIND = {v: k for k, v in KIND_SYSCALL.items()}
 ERRNOS = ["ENOSPC", "EIO", "EACCES", "EMFILE"]
+# errors that are specific to one kind of call (in addition to the general ones)
+KIND_ERRNOS = {"KRename": ["EXDEV"], "KWrite": ["EDQUOT"], "KCopy": ["EDQUOT"], "KOpen": ["EROFS"], "KMkdir": ["EROFS"]}
 
 
 def build_storeop():
@@ -223,6 +225,10 @@ def project(calls, base):
                 continue
             if name == "openat" and "O_CREAT" in args:
                 events.append(("ECreate", loc))
+                if "O_TRUNC" in args and "O_EXCL" not in args:
+                    events.append(("EWrite", loc, 0))     # may truncate an existing file
+            elif name == "openat" and "O_TRUNC" in args:
+                events.append(("EWrite", loc, 0))         # truncation in place
             elif name == "mkdirat":
                 events.append(("EMkdir", loc))
             elif name == "unlinkat":
